@@ -125,6 +125,12 @@ func runC13(p *core.Program, r *core.Report) {
 	x := wire.NewExtractor(p)
 	pairs, _ := discoverPairs(p, x, []string{"util/list"})
 	runPairs(p, x, r, pairs, pairRules{"C13.serial", "", ""}, 3)
+	// the pack that carries typed lists re-creates each column from the type byte its GetType() wrote
+	if cf := p.Method("lang/pack", "StatGeneralPack", "create"); cf != nil && cf.Decl.Body != nil {
+		checkRegistryFI(p, r, "C13.serial", cf, "lang/pack", "StatGeneralPack.create", "util/list", "AnyList", "GetType")
+	} else if cf := p.Func("lang/pack", "create"); cf != nil && cf.Decl.Body != nil {
+		checkRegistryFI(p, r, "C13.serial", cf, "lang/pack", "create", "util/list", "AnyList", "GetType")
+	}
 	for _, n := range []string{"LinkedList", "zzCanaryLinked"} {
 		if t := listNamed(p, n); t != nil {
 			c13Linked(p, r, t, "C13.linked")
